@@ -1,5 +1,205 @@
 import PkVerif.Drv.Common
-/-! `pkmodel-c15`: stub (property not built yet). -/
+import PkVerif.Model.FileSchema
+import PkVerif.Gen.C15
+/-!
+`pkmodel-c15`: the file-schema model behind a line protocol.
+
+    tree <enc>                               set the current parts tree        -> ok size=<n>
+    readat <off> <n>                         FileReader.ReadAt                  -> <hex> <err>
+    seekread <off> <n>                       Seek + one Read                    -> <hex> <err>
+    foreach                                  ForeachChunk                       -> <leaf,leaf,…|-> <err>
+    chunks <data> <reader> <len> <eofFrom|-> <pos:bits,…|->   WriteFileFromReader -> ok <n> <tree of sizes>
+    sset <M> <L>                             SetStaticSetMembers + StaticSet    -> ok <shape> all=<k> flat=<b>
+
+`<enc>` = parts separated by `,`:  `h<size>` | `x<size>` | `b<hex|->:<off>:<size>` | `n<off>:<size>[<enc>]`.
+`chunks`: `<data>` and `<reader>` tell the implementation side how to regenerate the input; the model
+only needs its length, from which byte count on `sawEOF` was true, and where `OnSplit` was true.
+-/
 namespace Pk.Drv.C15
-def machine : Machine := { σ := Unit, init := (), step := fun s _ => (s, "bad-op") }
+open Pk Pk.FS
+
+def cfg : Cfg :=
+  { maxBlobSize := Gen.schemaMaxBlobSize, firstChunkSize := Gen.firstChunkSize,
+    tooSmallThreshold := Gen.tooSmallThreshold }
+
+/-- decimal digits only, 1..12 of them (the Go side applies the same rule) -/
+def num? (w : String) : Option Nat :=
+  let cs := w.toList
+  if cs.isEmpty ∨ cs.length > 12 ∨ !cs.all Char.isDigit then none
+  else some (cs.foldl (fun a c => a * 10 + (c.toNat - 48)) 0)
+
+/-! ### tree syntax -/
+
+def takeNum (cs : List Char) : Option (Nat × List Char) :=
+  let ds := cs.takeWhile Char.isDigit
+  if ds.isEmpty ∨ ds.length > 12 then none
+  else some (ds.foldl (fun a c => a * 10 + (c.toNat - 48)) 0, cs.dropWhile Char.isDigit)
+
+def isHexChar (c : Char) : Bool := c.isDigit || ('a' ≤ c && c ≤ 'f')
+
+def takeHex (cs : List Char) : Option (Bytes × List Char) :=
+  match cs with
+  | '-' :: rest => some ([], rest)
+  | _ =>
+    let hs := cs.takeWhile isHexChar
+    match ofHexString (String.ofList hs) with
+    | some b => if hs.isEmpty then none else some (b, cs.dropWhile isHexChar)
+    | none => none
+
+mutual
+def parsePart : Nat → List Char → Option (Part × List Char)
+  | 0, _ => none
+  | fuel + 1, cs =>
+    match cs with
+    | 'h' :: r => (takeNum r).map (fun (n, r) => (.hole n, r))
+    | 'x' :: r => (takeNum r).map (fun (n, r) => (.both n, r))
+    | 'b' :: r =>
+      match takeHex r with
+      | some (d, ':' :: r1) =>
+        match takeNum r1 with
+        | some (o, ':' :: r2) => (takeNum r2).map (fun (s, r3) => (.blob d o s, r3))
+        | _ => none
+      | _ => none
+    | 'n' :: r =>
+      match takeNum r with
+      | some (o, ':' :: r1) =>
+        match takeNum r1 with
+        | some (s, '[' :: r2) =>
+          match parseParts fuel r2 with
+          | some (sub, ']' :: r3) => some (.bytes sub o s, r3)
+          | _ => none
+        | _ => none
+      | _ => none
+    | _ => none
+def parseParts : Nat → List Char → Option (List Part × List Char)
+  | 0, _ => none
+  | fuel + 1, cs =>
+    match cs with
+    | [] => some ([], [])
+    | ']' :: _ => some ([], cs)
+    | _ =>
+      match parsePart fuel cs with
+      | none => none
+      | some (p, ',' :: r) =>
+        match r with
+        | [] => none
+        | ']' :: _ => none
+        | _ => (parseParts fuel r).map (fun (ps, r') => (p :: ps, r'))
+      | some (p, r) => some ([p], r)
+end
+
+def parseTree (w : String) : Option (List Part) :=
+  if w = "-" then some [] else
+  let cs := w.toList
+  match parseParts (2 * cs.length + 2) cs with
+  | some (ps, []) => some ps
+  | _ => none
+
+/-! ### output -/
+
+def showErr : RErr → String
+  | .nil => "nil" | .eof => "eof" | .unexpectedEOF => "unexpectedEOF" | .illegal => "illegal"
+  | .tooDeep => "tooDeep"
+
+def showRead (r : Bytes × RErr) : String := s!"{toHexString r.1} {showErr r.2}"
+
+def showLeaf : Part → String
+  | .hole s => s!"h{s}"
+  | .blob d o s => s!"b{toHexString d}:{o}:{s}"
+  | .both s => s!"x{s}"
+  | .bytes _ o s => s!"n{o}:{s}[]"
+
+def joinComma (xs : List String) : String := if xs.isEmpty then "-" else ",".intercalate xs
+
+mutual
+def showSizes : Part → String
+  | .hole s => s!"h{s}"
+  | .blob _ _ s => s!"b{s}"
+  | .both s => s!"x{s}"
+  | .bytes sub _ s => s!"B{s}[" ++ showSizesL sub ++ "]"
+def showSizesL : List Part → String
+  | [] => ""
+  | [p] => showSizes p
+  | p :: ps => showSizes p ++ "," ++ showSizesL ps
+end
+
+mutual
+def showSSet : SSet → String
+  | .mk m subs => s!"({m.length}" ++ showSSetL subs ++ ")"
+def showSSetL : List SSet → String
+  | [] => ""
+  | s :: ss => showSSet s ++ showSSetL ss
+end
+
+/-! ### chunks input -/
+
+def parseSplits (w : String) : Option (List (Nat × Nat)) :=
+  if w = "-" then some [] else
+  (w.splitOn ",").mapM (fun item =>
+    match item.splitOn ":" with
+    | [a, b] => match num? a, num? b with
+      | some p, some k => some (p, k)
+      | _, _ => none
+    | _ => none)
+
+/-- positions must be strictly increasing and within 1..len -/
+def splitsOk (len : Nat) : List (Nat × Nat) → Nat → Bool
+  | [], _ => true
+  | (p, _) :: r, prev => decide (prev < p) && decide (p ≤ len) && splitsOk len r p
+
+/-- the annotated input, built from the last byte down: byte `i` (1-based) carries value `i - 1` -/
+def buildInput (eofFrom : Option Nat) : Nat → List (Nat × Nat) → List In → List In
+  | 0, _, acc => acc
+  | i + 1, rsplits, acc =>
+    let eof := match eofFrom with | some k => decide (k < i + 1) | none => false
+    match rsplits with
+    | (p, b) :: rest =>
+      if p = i + 1 then buildInput eofFrom i rest (⟨i, some b, eof⟩ :: acc)
+      else buildInput eofFrom i rsplits (⟨i, none, eof⟩ :: acc)
+    | [] => buildInput eofFrom i [] (⟨i, none, eof⟩ :: acc)
+
+def doChunks (len : Nat) (eofFrom : Option Nat) (splits : List (Nat × Nat)) : String :=
+  let input := buildInput eofFrom len splits.reverse []
+  match writeFile cfg input with
+  | .error .weirdSpan => "panic"
+  | .error .sizeMismatch => "err"
+  | .ok (parts, _) => s!"ok {sumPartsSize parts} {if parts.isEmpty then "-" else showSizesL parts}"
+
+def doSSet (m l : Nat) : String :=
+  let ms := List.range l
+  match spread m ms with
+  | .error .panic => "panic"
+  | .error .diverge => "diverge"
+  | .ok (top, all) => s!"ok {showSSet top} all={all.length} flat={showBool (staticSet top == ms)}"
+
+def step (st : List Part) (ws : List String) : List Part × String :=
+  match ws with
+  | ["tree", enc] =>
+    (match parseTree enc with
+     | some ps => (ps, s!"ok size={sumPartsSize ps}")
+     | none => (st, "bad-op"))
+  | ["readat", a, b] =>
+    (match num? a, num? b with
+     | some off, some n => if n > 16777216 then (st, "bad-op") else (st, showRead (readAt st off n))
+     | _, _ => (st, "bad-op"))
+  | ["seekread", a, b] =>
+    (match num? a, num? b with
+     | some off, some n => if n > 16777216 then (st, "bad-op") else (st, showRead (seekRead st off n))
+     | _, _ => (st, "bad-op"))
+  | ["foreach"] =>
+    (match foreachChunk st with
+     | (cs, e) => (st, s!"{joinComma (cs.map showLeaf)} {match e with | some e => showErr e | none => "nil"}"))
+  | ["chunks", _, _, l, e, sp] =>
+    (match num? l, (if e = "-" then some none else (num? e).map some), parseSplits sp with
+     | some len, some eofFrom, some splits =>
+       if len ≤ 67108864 ∧ splitsOk len splits 0 then (st, doChunks len eofFrom splits) else (st, "bad-op")
+     | _, _, _ => (st, "bad-op"))
+  | ["sset", a, b] =>
+    (match num? a, num? b with
+     | some m, some l => if m > 262144 ∨ l > 262144 then (st, "bad-op") else (st, doSSet m l)
+     | _, _ => (st, "bad-op"))
+  | _ => (st, "bad-op")
+
+def machine : Machine := { σ := List Part, init := [], step := step }
+
 end Pk.Drv.C15
